@@ -866,7 +866,10 @@ class Hydrodynamics:
             return vp * vw - self.thermodynamics.csqHighT(Tp)
 
         self.success = True
-        vmin = self.vMin
+        # The template model provides the initial guess of the matching only above its
+        # own minimal velocity, which differs from self.vMin at the level of the
+        # tolerances
+        vmin = max(self.vMin, self.template.vMin + 1e-6)
         vmax = self.vJ - 1e-10
 
         if (
